@@ -72,7 +72,13 @@ def one_position_module(methods, corpus, checks, prelude=""):
     L = [SPEC_LIB, prelude, "f = Ovld()", "METHODS = []"]
     for i, m in enumerate(methods):
         b = m["bound"]
-        if m["kind"] == "ann":
+        if m["kind"] == "depunion":
+            # a value-dependent type as a member of a union with a plain class
+            L.append(f"def p{i}(x):\n    PRED.append(({b}, x))\n    return {m['pred']}")
+            L.append(f"def m{i}(x: Dependent[{b}, p{i}] | {m['other']}):\n    LOG.append({i})\n    return {i}")
+            L.append(f"METHODS.append(dict(idx={i}, kind='dep', bound=({b}, {m['other']}), "
+                     f"holds=(lambda x: (isinstance(x, {b}) and ({m['pred']})) or isinstance(x, {m['other']})), prio={m['prio']}))")
+        elif m["kind"] == "ann":
             # value type given by an annotation expression; documented meaning given as a python expression over x
             L.append(f"def m{i}(x: {m['ann']}):\n    LOG.append({i})\n    return {i}")
             L.append(f"METHODS.append(dict(idx={i}, kind='dep', bound={b}, holds=(lambda x: {m['pred']}), prio={m['prio']}))")
